@@ -335,6 +335,40 @@ class Corr:
                                 "observed": observed, "note": note})
 
 
+
+class Spin(BaseException):
+    """raised INSIDE code that has been running for too long without returning to the harness (a synchronous
+    busy loop in the code under test: e.g. a retry loop that never awaits).  BaseException, so that the library's
+    own `except Exception` / `except CommunicationError` handlers cannot swallow it."""
+
+
+class watchdog:
+    """with watchdog(seconds): …   — wall-clock limit for one scenario, by SIGALRM (main thread only; elsewhere
+    a no-op).  A scenario of these harnesses takes milliseconds; the limit only fires when the code under test
+    spins, and turns the spin into a `Spin` exception that the harness reports as 'never completes'."""
+
+    def __init__(self, seconds):
+        self.seconds = seconds
+        self.armed = False
+
+    def __enter__(self):
+        import signal, threading
+        if threading.current_thread() is threading.main_thread():
+            def fire(_s, _f):
+                raise Spin()
+            self.old = signal.signal(signal.SIGALRM, fire)
+            signal.setitimer(signal.ITIMER_REAL, self.seconds)
+            self.armed = True
+        return self
+
+    def __exit__(self, *exc):
+        if self.armed:
+            import signal
+            signal.setitimer(signal.ITIMER_REAL, 0)
+            signal.signal(signal.SIGALRM, self.old)
+        return False
+
+
 def hot_addr(rng, n=64):
     """a unit address: mostly one of a few 'hot' ones, so that successive runs of a harness meet DIFFERENT unit
     states at the SAME address (anything the library remembers per address from an earlier call then shows)"""
